@@ -6,7 +6,7 @@
                                          (a linearisation of the observed calls — thread order and ticket order kept — on
                                          which the MVCC model gives every observed answer and the observed final contents),
                                          and, when the case is conflict-free, `MT.checkSerial` certifies a serial order
-           bad hang | bad panic | bad internal-error <call> | bad not-serialisable | bad not-serial | bad not-alone |
+           bad hang | bad panic | bad protocol-violation <tag> | bad internal-error <call> | bad not-serialisable | bad not-serial | bad not-alone |
            bad malformed-observation
   Flags:   none (findings of this engine are attributed by region, see known_findings.d/C14.json)
 -/
@@ -39,7 +39,7 @@ def parseNat (s : String) : Option Nat :=
 
 /-- the yield points of the database (`axmosdb::verif::sched::TAGS`) -/
 def yieldTags : List String :=
-  ["snapshot_taken", "commit_logged", "committed", "page_fetched", "tree_write", "leaf_released"]
+  ["begin_snapshot", "row_id_leased", "snapshot_taken", "commit_logged", "committed", "page_fetched", "tree_write", "leaf_released"]
 
 def parseTSetup : List String → List String → List Fill → Option TSetup
   | [], hw, fs =>
@@ -305,6 +305,7 @@ def judge (line : String) : String :=
         if obsS.startsWith "hang" then "bad hang"
         else if obsS.startsWith "panic@" then "bad panic"
         else if obsS.startsWith "abort" then "bad abort"
+        else if obsS.startsWith "protocol:" then "bad protocol-violation " ++ ((words obsS).headD "")
         else match obsS.splitOn " | " with
           | [callsS, finS] =>
             match words callsS with
